@@ -395,6 +395,20 @@ func EqualTypedValues(v1, v2 *sdcpb.TypedValue) bool {
 					return false
 				}
 			}
+			return true
+		default:
+			return false
+		}
+	case *sdcpb.TypedValue_DoubleVal:
+		switch v2 := v2.GetValue().(type) {
+		case *sdcpb.TypedValue_DoubleVal:
+			if v1 == nil && v2 == nil {
+				return true
+			}
+			if v1 == nil || v2 == nil {
+				return false
+			}
+			return v1.DoubleVal == v2.DoubleVal
 		default:
 			return false
 		}
@@ -438,8 +452,8 @@ func EqualTypedValues(v1, v2 *sdcpb.TypedValue) bool {
 			return false
 		}
 	}
-	// TODO: Why is this default case to return true??
-	return true
+	// v1 carries no value: it equals v2 only if v2 carries no value either
+	return v2.GetValue() == nil
 }
 
 func TypedValueToString(tv *sdcpb.TypedValue) string {
